@@ -34,22 +34,31 @@ type MiniResult struct {
 // given raw fields (pseudo-headers included, exactly as given) and an optional
 // body, and reads stream 1 to its end.
 func H2Once(addr string, fields []HF, body []byte, watchdog time.Duration) *MiniResult {
+	r, _ := H2WithProbe(addr, fields, body, nil, watchdog)
+	return r
+}
+
+// H2WithProbe is H2Once followed (when probe != nil) by a second request on
+// stream 3 of the same connection; probeAnswered reports whether that second
+// request got a response (i.e. the connection was still alive).
+func H2WithProbe(addr string, fields []HF, body []byte, probe []HF, watchdog time.Duration) (first *MiniResult, probeAnswered bool) {
 	res := &MiniResult{}
+	first = res
 	d := &net.Dialer{Timeout: 20 * time.Second}
 	c, err := tls.DialWithDialer(d, "tcp", addr, &tls.Config{InsecureSkipVerify: true, NextProtos: []string{"h2"}, MaxVersion: tls.VersionTLS12})
 	if err != nil {
 		res.Err = "dial: " + err.Error()
-		return res
+		return res, false
 	}
 	defer c.Close()
 	if p := c.ConnectionState().NegotiatedProtocol; p != "h2" {
 		res.Err = "alpn: " + p
-		return res
+		return res, false
 	}
 	c.SetDeadline(time.Now().Add(watchdog))
 	if _, err := io.WriteString(c, http2.ClientPreface); err != nil {
 		res.Err = err.Error()
-		return res
+		return res, false
 	}
 	fr := http2.NewFramer(c, c)
 	fr.WriteSettings()
@@ -60,22 +69,46 @@ func H2Once(addr string, fields []HF, body []byte, watchdog time.Duration) *Mini
 	}
 	if err := fr.WriteHeaders(http2.HeadersFrameParam{StreamID: 1, BlockFragment: hb.Bytes(), EndHeaders: true, EndStream: len(body) == 0}); err != nil {
 		res.Err = err.Error()
-		return res
+		return res, false
 	}
 	if len(body) > 0 {
 		fr.WriteData(1, true, body)
 	}
+	var curp **MiniResult
 	dec := hpack.NewDecoder(4096, func(f hpack.HeaderField) {
+		c := *curp
 		if f.Name == ":status" {
-			res.Status = f.Value
+			c.Status = f.Value
 		}
-		res.Fields = append(res.Fields, HF{f.Name, f.Value})
+		c.Fields = append(c.Fields, HF{f.Name, f.Value})
 	})
+	cur := res
+	curp = &cur
+	stream := uint32(1)
+	done := func() (*MiniResult, bool, bool) {
+		// stream finished; start the probe if requested
+		if probe == nil || stream == 3 {
+			return res, stream == 3 && cur.Status != "", true
+		}
+		var pb bytes.Buffer
+		penc := hpack.NewEncoder(&pb)
+		for _, f := range probe {
+			penc.WriteField(hpack.HeaderField{Name: f.Name, Value: f.Value})
+		}
+		if err := fr.WriteHeaders(http2.HeadersFrameParam{StreamID: 3, BlockFragment: pb.Bytes(), EndHeaders: true, EndStream: true}); err != nil {
+			return res, false, true
+		}
+		stream = 3
+		cur = &MiniResult{}
+		return nil, false, false
+	}
 	for {
 		f, err := fr.ReadFrame()
 		if err != nil {
-			res.Err = err.Error()
-			return res
+			if stream == 1 {
+				res.Err = err.Error()
+			}
+			return res, false
 		}
 		switch f := f.(type) {
 		case *http2.SettingsFrame:
@@ -85,23 +118,33 @@ func H2Once(addr string, fields []HF, body []byte, watchdog time.Duration) *Mini
 		case *http2.HeadersFrame:
 			dec.Write(f.HeaderBlockFragment())
 			if f.StreamEnded() {
-				res.EndStream = true
-				return res
+				cur.EndStream = true
+				if r, ans, fin := done(); fin {
+					return r, ans
+				}
 			}
 		case *http2.ContinuationFrame:
 			dec.Write(f.HeaderBlockFragment())
 		case *http2.DataFrame:
-			res.Body = append(res.Body, f.Data()...)
+			cur.Body = append(cur.Body, f.Data()...)
 			if f.StreamEnded() {
-				res.EndStream = true
-				return res
+				cur.EndStream = true
+				if r, ans, fin := done(); fin {
+					return r, ans
+				}
 			}
 		case *http2.RSTStreamFrame:
-			res.Reset, res.ErrCode = true, uint32(f.ErrCode)
-			return res
+			cur.Reset, cur.ErrCode = true, uint32(f.ErrCode)
+			return res, false
 		case *http2.GoAwayFrame:
-			res.GoAway, res.ErrCode = true, uint32(f.ErrCode)
-			return res
+			if stream == 1 {
+				res.GoAway, res.ErrCode = true, uint32(f.ErrCode)
+				return res, false
+			}
+			// GOAWAY while the probe is outstanding: only decisive if the probe stream was refused
+			if f.LastStreamID < 3 {
+				return res, false
+			}
 		case *http2.PingFrame:
 			if !f.IsAck() {
 				fr.WritePing(true, f.Data)
